@@ -111,11 +111,68 @@ static void op_save(Ctx &c, std::string *img_out) {
   c.sample(std::string(KIND_NAMES[c.kind]) + "/" + c.state + " save x3: " + std::to_string(img1.size()) + " bytes, identical=" + (img1 == img2 && img1 == img3 ? "yes" : "no"));
 }
 
+// ---- C16: loaders fail safe ------------------------------------------------------------
+struct membuf : std::streambuf {
+  membuf(char *b, size_t n) { setg(b, b, b + n); }
+  pos_type seekoff(off_type off, std::ios_base::seekdir dir, std::ios_base::openmode) override {
+    char *p = dir == std::ios_base::beg ? eback() + off : dir == std::ios_base::cur ? gptr() + off : egptr() + off;
+    if (p < eback() || p > egptr()) return pos_type(off_type(-1));
+    setg(eback(), p, egptr());
+    return pos_type(p - eback());
+  }
+  pos_type seekpos(pos_type pos, std::ios_base::openmode m) override { return seekoff(off_type(pos), std::ios_base::beg, m); }
+};
+
+static void op_foreign_loaders(Ctx &c, const std::string &img_in) {
+  std::string img = img_in.empty() ? save_image(c.d) : img_in;
+  for (int k = 0; k < (int)K_NONE; k++) {
+    if ((Kind)k == c.kind) continue;
+    std::stringstream ss(img, std::ios::in | std::ios::binary);
+    obs::crumb("C16", "foreign_loader", std::string(KIND_NAMES[k]) + "::load on an image of " + KIND_NAMES[c.kind]);
+    StringDictionary *d = load_own((Kind)k, ss, c.opt);
+    obs::count("eval.foreign_loader");
+    if (d) obs::violation("C16", "foreign_loader", "fabricated", KIND_NAMES[k], std::string(KIND_NAMES[k]) + "::load accepted an image of kind " + KIND_NAMES[c.kind]);
+  }
+  c.sample(std::string("12 foreign own-loaders on an image of ") + KIND_NAMES[c.kind] + " (" + std::to_string(img.size()) + " bytes) must all return NULL");
+}
+
+static void op_bad_tags(Ctx &c, const std::string &img_in, uint64_t from, uint64_t to, uint64_t nrandom) {
+  std::string img = img_in.empty() ? save_image(c.d) : img_in;
+  std::vector<char> buf(img.begin(), img.end());
+  auto known = [](uint32_t t) {
+    return t == HASHHF || t == HASHUFFDAC || t == HASHRPF || t == HASHRPDAC || t == PFC || t == RPFC || t == HTFC || t == HHTFC || t == RPHTFC || t == RPDAC || t == FMINDEX || t == DXBW;
+  };
+  uint64_t tried = 0, bad = 0;
+  auto probe = [&](uint32_t t) {
+    if (known(t)) return;
+    memcpy(buf.data(), &t, 4);
+    membuf mb(buf.data(), buf.size());
+    std::istream in(&mb);
+    StringDictionary *d = StringDictionary::load(in, c.opt);
+    tried++;
+    if (d) {
+      bad++;
+      if (bad <= 5) obs::violation("C16", "bad_tag", "fabricated", "tag", "generic loader returned an object for unknown type tag " + std::to_string(t));
+    }
+  };
+  obs::crumb("C16", "bad_tag", "range " + std::to_string(from) + ".." + std::to_string(to));
+  for (uint64_t t = from; t < to; t++) probe((uint32_t)t);
+  for (uint32_t kt : {HASHHF, HASHUFFDAC, HASHRPF, HASHRPDAC, HASHRPDACBlocks, PFC, RPFC, HTFC, HHTFC, RPHTFC, RPDAC, FMINDEX, DXBW})
+    for (int dlt : {-2, -1, 1, 2, 256, 65536}) probe(kt + dlt);
+  for (uint32_t t : {0u, 0xFFFFFFFFu, 0x80000000u, 0x7FFFFFFFu, 0x0B000000u, 0xD3000000u}) probe(t);
+  Rng r(c.rng.s ^ 0x7A65);
+  obs::crumb("C16", "bad_tag", "random tags");
+  for (uint64_t i = 0; i < nrandom; i++) probe((uint32_t)r.next());
+  obs::count("eval.bad_tag", (long)tried);
+  c.sample("generic loader on an image of " + std::string(KIND_NAMES[c.kind]) + " with " + std::to_string(tried) + " unknown type tags (range " + std::to_string(from) + ".." + std::to_string(to) + " + neighbours of known tags + " + std::to_string(nrandom) + " random) must return NULL");
+}
+
 int main(int argc, char **argv) {
   std::string kind_s, input, state = "fresh", out, ops, skip, imgout, tdump;
   Ctx c;
   uint64_t seed = 1;
-  long memalloc = 0;
+  long memalloc = 0, qbs = -1;
+  uint64_t tag_from = 0, tag_to = 0, tag_random = 0;
   for (int i = 1; i < argc; i++) {
     std::string a = argv[i];
     auto val = [&]() { return std::string(i + 1 < argc ? argv[++i] : ""); };
@@ -135,6 +192,10 @@ int main(int argc, char **argv) {
     else if (a == "--img-out") imgout = val();
     else if (a == "--tdump") tdump = val();
     else if (a == "--big") c.big = true;
+    else if (a == "--qbs") qbs = atol(val().c_str());
+    else if (a == "--tag-from") tag_from = strtoull(val().c_str(), NULL, 10);
+    else if (a == "--tag-to") tag_to = strtoull(val().c_str(), NULL, 10);
+    else if (a == "--tag-random") tag_random = strtoull(val().c_str(), NULL, 10);
     else { fprintf(stderr, "unknown arg %s\n", a.c_str()); return 2; }
   }
   obs::install(out.empty() ? NULL : out.c_str(),
@@ -156,6 +217,7 @@ int main(int argc, char **argv) {
   c.skip = split_set(skip);
   if (!tdump.empty()) c.tdump = fopen(tdump.c_str(), "w");
   if (is_fc(c.kind)) c.bs = c.P.p1 < 2 ? 2 : c.P.p1;
+  if (qbs >= 0) c.bs = qbs; // query generation independent of the real bucket size (C12 compares transcripts across parameters)
 #ifdef LIBCSD_VERIF
   if (memalloc > 0) libcsd_verif::memalloc_ref().store((size_t)memalloc);
 #endif
@@ -231,7 +293,7 @@ int main(int argc, char **argv) {
       }
     } else if (state == "concat") {
       // img(A) || img(A) || canary: each own loader must consume exactly its image
-      std::string canary = "\xAA\xBB\xCC\xDD\xEE\xFF\x11\x22\x33\x44\x55\x66\x77\x88\x99\x00";
+      std::string canary("\xAA\xBB\xCC\xDD\xEE\xFF\x11\x22\x33\x44\x55\x66\x77\x88\x99\x01", 16);
       std::string cat = img + img + canary;
       std::stringstream ss(cat, std::ios::in | std::ios::binary);
       obs::crumb("C06", "load", "concat first image");
@@ -263,6 +325,10 @@ int main(int argc, char **argv) {
     } else { fprintf(stderr, "bad state\n"); return 2; }
   }
   obs::count("state_" + state);
+  // a loaded dictionary that answers wrongly also violates the persistence round trip; a re-saved one the re-save clause
+  if (state == "own" || state == "gen" || state == "concat") obs::extra_props = ",C06";
+  if (state == "resaved") obs::extra_props = ",C06,C08";
+  strncpy(obs::extra_props_c, obs::extra_props.c_str(), sizeof(obs::extra_props_c) - 1);
 
   if (c.d) {
     op_meta(c);
@@ -274,6 +340,8 @@ int main(int argc, char **argv) {
     op_substr(c);
     op_table(c);
     if (c.ops.count("unsupported")) op_unsupported(c);
+    if (c.ops.count("foreign_loaders")) op_foreign_loaders(c, img);
+    if (c.ops.count("bad_tags")) op_bad_tags(c, img, tag_from, tag_to, tag_random);
     if (c.ops.count("history")) op_history(c, img);
     if (c.ops.count("save")) op_save(c, NULL);
     if (c.ops.count("final_image")) {
